@@ -135,6 +135,10 @@ func Run(tier string, seed int64, outDir string) *common.Meta {
 	meta.Distribution["packages_S2"] = len(s2)
 	meta.Distribution["files"] = len(files)
 	meta.Distribution["checkers"] = len(infos)
+	meta.Notes = append(meta.Notes, fw.RulesNote)
+	if !fw.RulesLoaded {
+		meta.TieBroken = append(meta.TieBroken, "the dynamic ruleguard checker has no user rules: "+fw.RulesNote)
+	}
 	meta.Distribution["load_s"] = time.Since(t0).Seconds()
 	if len(s1) < 50 || len(infos) < 60 {
 		meta.TieBroken = append(meta.TieBroken, fmt.Sprintf("corpus or registry unexpectedly small: %d packages, %d checkers", len(s1), len(infos)))
